@@ -106,6 +106,9 @@ def oracle_c02(cases, impl, model):
     _, libdefs, _ = P.libdefs_path()
     fails = []
     for k, (c, i) in enumerate(zip(cases, impl)):
+        if not i.error and i.end == "done" and "expect_answers" in c and len(i.answers) != c["expect_answers"]:
+            fails.append({"case_index": k, "what": "a list with a variable tail and a list of another written length: with the tail bound the two "
+                          "sides are %s, so the program has %d answer(s), not %d" % ("different" if c["expect_answers"] else "equal", c["expect_answers"], len(i.answers))})
         if i.error or i.end != "done" or not c.get("ground_check"):
             continue
         sols = program_solutions(c, libdefs)
@@ -182,6 +185,31 @@ def run_c02(tier, seed, replay=None):
         if rnd.random() < 0.3:
             rnd.shuffle(goals)
         cases.append(mk_case([], ["q", "r"], goals, ground_check=True))
+    # lists with a variable tail against lists of a DIFFERENT written length: they differ only as long as the tail is open
+    for _ in range(n // 3):
+        k = rnd.randint(1, 2)
+        full = [rnd.randint(1, 3) for _ in range(k + rnd.randint(1, 2))]
+        head = full[:k] if rnd.random() < 0.7 else [rnd.randint(1, 3) for _ in range(k)]
+        open_l = ["ilist"] + head + ["t"]
+        closed = ["list"] + full
+        tail_val = rnd.choice([["list"] + full[k:], ["list"] + full[k:], "nil", ["list", rnd.randint(1, 3)], ["ilist"] + full[k:k + 1] + ["r"]])
+        sides = [open_l, closed] if rnd.random() < 0.5 else [closed, open_l]
+        form = rnd.random()
+        if form < 0.4:
+            goals = [["neq"] + sides, ["eq", "t", tail_val]]
+        elif form < 0.8:
+            goals = [["eq", "q", open_l], ["neq", "q", closed] if rnd.random() < 0.5 else ["neq", closed, "q"], ["eq", "t", tail_val]]
+        else:
+            goals = [["eq", "q", open_l], ["eq", "r", closed], ["neq", "q", "r"], ["eq", "t", tail_val]]
+        if rnd.random() < 0.3:
+            rnd.shuffle(goals)
+        meta = {}
+        if rnd.random() < 0.3:
+            goals = goals[:-1]             # the tail stays open: the constraint must be reported
+        elif tail_val == "nil" or (tail_val[0] == "list"):
+            tv = [] if tail_val == "nil" else tail_val[1:]
+            meta["expect_answers"] = 0 if head + tv == full else 1
+        cases.append(mk_case([], ["q", "r", "t"], goals, ground_check=False, **meta))
     return pcheck.run_check("C02", tier, seed, cases, "exact", oracle_c02, cone=CONE_D, replay=replay,
         rule="programs of ==, !=, conjunction, conde and fresh over terms of depth <= 2 with <= 2 query variables; permutation groups of "
              "2-4 goals; subsumption patterns; ground oracle: the instances of the reported answers over a 7-element universe (constants, "
@@ -377,6 +405,25 @@ def run_c04(tier, seed, replay=None):
         perms = list(itertools.permutations(pool))
         for pm in perms:
             # a constraint may only mention variables that get a domain before labeling: keep the domain goal anywhere (C16 allows any order)
+            cases.append(mk_case([], ["q", "r"], list(pm), perm_group=grp, mode="bag"))
+        grp += 1
+    # several domains for one variable (dense and sparse, a later one removing only interior values), and an equation between
+    # two domained variables, in every order: the intersection does not depend on which domain arrives first
+    for _ in range(n // 3):
+        lo = rnd.randint(-1, 1)
+        dense = list(range(lo, lo + rnd.randint(3, 6)))
+        sparse = [dense[0]] + [v for v in dense[1:-1] if rnd.random() < 0.5] + [dense[-1]]
+        if len(sparse) == len(dense):
+            sparse.remove(dense[1])
+        third = rnd.choice([["dom", "q", ["v"] + [v for v in dense if rnd.random() < 0.7 or v == dense[0]]],
+                            ["dom", "r", ["i", dense[0], dense[-1]]], ["rel", "ltefd", "q", dense[-1]], ["neq", "q", "r"]])
+        form = rnd.random()
+        if form < 0.5:
+            pool = [["dom", "q", ["i", dense[0], dense[-1]]], ["dom", "q", ["v"] + sparse], third, ["dom", "r", ["i", 0, 1]]]
+        else:
+            pool = [["dom", "q", ["v"] + sparse], ["dom", "r", ["v"] + dense], rnd.choice([["eq", "q", "r"], ["eq", "r", "q"]]), third]
+        perms = list(itertools.permutations(pool))
+        for pm in (perms if len(perms) <= 8 else rnd.sample(perms, 8)):
             cases.append(mk_case([], ["q", "r"], list(pm), perm_group=grp, mode="bag"))
         grp += 1
     return pcheck.run_check("C04", tier, seed, cases, "bag", oracle_c04, cone=CONE_D, replay=replay,
